@@ -196,7 +196,7 @@ class Ctx:
         """Generated-input search: ``check(case)`` returns None or (bucket, detail)."""
         import hypothesis
         from hypothesis import HealthCheck, Phase, given, settings
-        from hypothesis.errors import FailedHealthCheck, Unsatisfiable
+        from hypothesis.errors import FailedHealthCheck, Flaky, Unsatisfiable
 
         seen: set = set()
         phases = [Phase.explicit, Phase.generate, Phase.target] + ([Phase.shrink] if shrink else [])
@@ -237,6 +237,14 @@ class Ctx:
                 continue
             except (FailedHealthCheck, Unsatisfiable) as e:
                 raise HarnessError(f"{name}: hypothesis health check: {e}") from e
+            except (Flaky, BaseExceptionGroup) as e:
+                # the failure depends on state that survives between cases (e.g. a process-wide counter in the library):
+                # it did fail for the recorded case, so it is reported, flagged as history dependent
+                if state["case"] is None:
+                    raise HarnessError(f"{name}: flaky without a recorded failing case: {e!r}") from e
+                self.violation(state["bucket"], state["case"], f"[history dependent: not reproduced on immediate re-run] {state['detail']}")
+                seen.add(state["bucket"])
+                continue
             break
 
 
